@@ -283,6 +283,8 @@ def ev_unary(op, node, m):
             lift(lambda v: progs.boom_model(node['m'], node['r'], node['exc'], node['fn'], v), v) for v in m.vals])
     if op == 'spy':
         return m
+    if op == 'nonemap':
+        return m.clone(vals=[lift(lambda v: progs.f_none(node['m'], node['r'], v), v) for v in m.vals])
     if op == 'mapc':
         def comp(v, fns=tuple(node['fns'])):
             for i in fns:
@@ -387,6 +389,23 @@ def ev_unary(op, node, m):
                      cmin(m.cap_keys, 'req' if m.indexable else 'no'),
                      indexable=m.indexable, sized=m.sized, unordered=m.unordered, taint=m.taint,
                      int_taint=m.int_taint or m.taint or cap_int_through_keys != 'req')
+    if op == 'tile' and node.get('shuffle'):
+        # tile(r, shuffle=True): r independent one-time shuffles drawn from the GLOBAL numpy generator, which the
+        # builder seeds with node['np_seed'] right before building this stage
+        if 'np_seed' not in node or not (m.indexable and m.sized) or m.has_raise:
+            raise Invalid('shuffled tile needs a pinned global seed and an indexable input')
+        rs = np.random.RandomState(node['np_seed'])
+        parts = []
+        for _ in range(node['r']):
+            perm = np.arange(m.n)
+            rs.shuffle(perm)
+            parts.append(select(m, [int(i) for i in perm]))
+        if node['r'] == 1:
+            return parts[0]
+        order = [(d, j) for d in range(node['r']) for j in range(m.n)]
+        vals = [parts[d].vals[j] for d, j in order]
+        keys, ck, ci, cs, taint = combine_keys(parts, order)
+        return Model(vals, keys, ck, ci, cs, indexable=True, sized=True, taint=taint, int_taint=m.int_taint)
     if op == 'tile':
         r = node['r']
         if r < 1:
